@@ -199,7 +199,7 @@ ExprForms == <<
   <<"pure_iife",         "ann", FALSE, "annotation", "/* @__PURE__ */ (() => { A() })()">>,
   <<"pure_in_seq",       "ann", FALSE, "annotation", "(/* @__PURE__ */ A(), 1)">>,
   <<"pure_member_call",  "ann", FALSE, "annotation", "/* @__PURE__ */ ({ m() { A() } }).m()">>,
-  <<"pure_not_on_callee", "yes", FALSE, "annotation", "(/* @__PURE__ */ (() => P))()()">>,
+  <<"pure_not_on_callee", "yes", FALSE, "annotation", "(/* @__PURE__ */ (() => () => P()))()()">>,
   <<"pure_option",       "ann", FALSE, "annotation", "PU()">>,
   <<"pure_option_arg",   "yes", FALSE, "annotation", "PU(P())">>
 >>
